@@ -4,7 +4,8 @@ set -u
 NAME=$1; PROP=$2; TIER=${3:-quick}
 WT=/tmp/wts-$NAME-$$
 git -C /repo worktree add -q --detach $WT HEAD || exit 2
-trap 'git -C /repo worktree remove --force $WT' EXIT
+# the run regenerates coq/Gen from the patched tree: put the committed files back afterwards
+trap 'git -C /repo worktree remove --force $WT; git -C /verif checkout -- coq/Gen 2>/dev/null' EXIT
 ( cd $WT && git apply /verif/seeded/$NAME/patch.diff ) || { echo "PATCH-DOES-NOT-APPLY"; exit 3; }
 cd /verif && VERIF_REPO=$WT ./check $PROP --tier $TIER 2>&1 | grep -E "^(VIOLATION|KNOWN-FINDING|REPLAY|Traceback|RuntimeError)" | head -12
 echo "rc=${PIPESTATUS[0]}"
